@@ -239,10 +239,10 @@ func (a *madapter) init() {
 		deploy, create}
 	b1, invalid, err := a.n.Build(a.n.Genesis, 0, 0, setup, "S1")
 	if err != nil || len(invalid) != 0 || len(b1.Txs) != len(setup) {
-		engine.Failf("setup block: err=%v discarded=%d packaged=%d", err, len(invalid), len(b1.Txs))
+		engine.Realf("setup block: err=%v discarded=%d packaged=%d", err, len(invalid), len(b1.Txs))
 	}
 	if _, err := a.n.DB.SetStableBlock(b1.Hash()); err != nil {
-		engine.Failf("setup: stabilise: %v", err)
+		engine.Realf("setup: stabilise: %v", err)
 	}
 	for i := 0; ; i++ { // the store indexes the assets of a stable block from a background goroutine (setup only)
 		if is, err := a.n.DB.GetAssetCode(a.asset0); err == nil && is == a.addr["a1"] {
@@ -273,7 +273,7 @@ func (a *madapter) init() {
 		t := a.tx(name, 1000000)
 		sel, _, _ := cal.proc.ApplyTxs(a.header(100000000), types.Transactions{t}, 1000000)
 		if len(sel) != 1 {
-			engine.Failf("calibration: %s is not packaged when run alone", name)
+			engine.Realf("calibration: %s is not packaged when run alone", name)
 		}
 		at.gas = sel[0].GasUsed()
 	}
